@@ -41,6 +41,8 @@ def match_known(prop, finding, beh):
             continue
         if "msg_re" in m and not re.search(m["msg_re"], finding.get("msg", "")):
             continue
+        if "item_re" in m and not (beh is not None and re.search(m["item_re"], str(beh.get("id", "")))):
+            continue
         if "cfg" in m and beh is not None:
             if any(str(beh.get("cfg", {}).get(kk, "")) != str(vv) for kk, vv in m["cfg"].items()):
                 continue
@@ -174,6 +176,8 @@ def run_core(prop, tier, seed, t0, replay_item=None):
                 cfg.update({"comp": "", "enc": "", "sig": ""})   # member data = content needs the plain pipeline
             items.append({"id": "%s-%s-%d-%d" % (prop, gname, seed, i), "cfg": cfg, "conc": cc, "steps": steps,
                           "oracles": [prop], "c07every": tier == "thorough" and i % 5 == 0, "pool": pool, "gen": gname})
+    if replay_item is None and prop == "C01":
+        items.append(symlink_witness())
     res, crashed = core.run_batches(runner, "replay", items, per_batch=6 if tier == "quick" else 12,
                                     timeout=2400)
     by_id = {it["id"]: it for it in items}
@@ -189,7 +193,13 @@ def run_core(prop, tier, seed, t0, replay_item=None):
         if r and r.get("executed", 0) >= 3:
             nontrivial.add(json.dumps([s["call"] for s in it["steps"]], sort_keys=True))
     sample = items[0] if items else None
+    pairs = {}
+    for it in items:
+        for st in it["steps"]:
+            key = "%s/%s" % (st["call"]["op"], st["res"])
+            pairs[key] = pairs.get(key, 0) + 1
     rep.coverage = {
+        "call_outcome_pairs_replayed": pairs,
         "states": mc["distinct"] + 0, "transitions": mc["generated"] + gen_states,
         "traces_validated_against_impl": stats["executed_behaviours"] + tstats["traces"],
         "impl_traces_validated_by_tlc": tstats["traces"], "impl_trace_events": tstats["events"],
@@ -249,6 +259,15 @@ def trace_part(rep, prop, runner, seed, n, length, tier, specs=None):
     if (soft or (hard and prop not in ("C10", "C02"))) and not rep.violations:
         raise Infra("trace recording problems: %s" % [(p["id"], p["kind"], p["why"][:300]) for p in (soft + hard)[:3]])
     return tstats
+
+
+def symlink_witness():
+    """Known finding K05: histories with symbolic links (generated behaviours contain none)."""
+    def c(op, p, q=None, ch="", k=0):
+        return {"call": {"op": op, "p": p, "q": q or [], "c": ch, "k": k}, "res": "ok", "napp": 0, "narch": 0, "nrec": 0, "vis": [], "recs": []}
+    steps = [c("Mkdir", ["a"]), c("WriteFile", ["a", "f"], ch="c1"), c("Symlink", ["a", "f"], ["l"]), c("Chmod", ["a", "f"], k=1),
+             c("Rename", ["a", "f"], ["g"]), c("Remove", ["l"])]
+    return {"id": "C01-witness-K05", "cfg": {"rs": 20}, "conc": {}, "steps": steps, "oracles": ["C01"], "pool": "plain", "gen": "witness"}
 
 
 def collate_replay(rep, prop, by_id, res, crashed, runner):
